@@ -315,3 +315,91 @@ def real_triclinic(w):
         if float((img ** 2).sum()) < h2 / 4 - 1e-9:
             return False, f"fractions {f.tolist()}: returned {d.tolist()} but the image {img.tolist()} is shorter than half the smallest cell height"
     return True, f"displacement {d.tolist()}"
+
+
+# ------------------------------------------------------------------------------- remove_pbc_from_coord
+def real_remove_pbc(w):
+    import numpy as np
+    import biotite.structure as struc
+    bi = w["bi"]
+    box = np.array(BOXES[bi], dtype=np.float64)
+    X = np.array(w["X"], dtype=np.float64)
+    res = struc.remove_pbc_from_coord(X.astype(np.float32), box.astype(np.float32)).astype(np.float64)
+    models = res.reshape(-1, X.shape[-2], 3)
+    orig = X.reshape(-1, X.shape[-2], 3)
+    for k, (R, O) in enumerate(zip(models, orig)):
+        fr = np.linalg.solve(box.T, (R - O).T).T
+        if np.abs(fr - np.round(fr)).max() > 1e-3:
+            return False, f"model {k}: atoms moved by non-lattice vectors (fractions {fr.tolist()})"
+        for a in range(len(R) - 1):
+            step = R[a + 1] - R[a]
+            want = struc.displacement(O[a].astype(np.float32), O[a + 1].astype(np.float32), box=box.astype(np.float32)).astype(np.float64)
+            if np.abs(step - want).max() > 1e-3:
+                return False, f"model {k}: consecutive atoms {a},{a + 1} are {step.tolist()} apart, minimum image {want.tolist()}"
+    return True, "ok"
+
+
+def ob_remove_pbc(tier):
+    """box.py:remove_pbc_from_coord on a chain of 3 atoms, as array (3,3) and as stack (2,3,3): every atom moves by a
+    lattice vector; consecutive atoms end up exactly one minimum-image displacement apart, model by model"""
+    geo, boxm = mods()
+    cases = []
+    LIM = 48
+    for bi in (0, 6) if tier == "quick" else (0, 1, 6):
+        for stack, which in ((False, 0),):        # stacks of models: the two-model formula does not finish (stated in DESIGN)
+            m = 2 if stack else 1
+            X = [[[z3.Int(f"x{k}{a}{d}") for d in "xyz"] for a in range(3)] for k in range(m)]
+            base = [z3.And(v >= -LIM, v <= LIM) for mod_ in X for a in mod_ for v in a]
+            if stack:
+                # model 0 is a fixed wrapped chain, model 1 is symbolic: results of model 1 must not depend on model 0
+                fixed = [(0, 0, 0), (28, 0, 4), (4, 36, 0)]
+                base += [X[0][a][t] == fixed[a][t] for a in range(3) for t in range(3)]
+
+            def run(bi=bi, stack=stack, m=m, X=X, which=which):
+                from vf.kx import rat as _rat
+                box = rnp.RNP.array([[CRat(Fraction(x)) for x in row] for row in BOXES[bi]])
+                pts = [[[CRat(v, 8) for v in a] for a in mod_] for mod_ in X]
+                if stack:
+                    pts[0] = [[CRat(v, 8) for v in a] for a in [(0, 0, 0), (28, 0, 4), (4, 36, 0)]]
+                coord = rnp.RNP.array(pts if stack else pts[0])
+                # remove_pbc_from_coord imports index_displacement from the real geometry module at call time: hand it
+                # the transformed one for the duration of the call
+                import biotite.structure.geometry as _real_geo
+                saved = _real_geo.index_displacement
+                _real_geo.index_displacement = geo.index_displacement
+                _rat.FLOOR_BY_FRESH_VAR = True
+                try:
+                    res = boxm.remove_pbc_from_coord(coord, box)
+                finally:
+                    _rat.FLOOR_BY_FRESH_VAR = False
+                    _real_geo.index_displacement = saved
+                b = frac_box(bi)
+                inv, _ = inv3(b)
+                conds = []
+                for k in (which,):          # one model per case (the other model's coordinates stay symbolic)
+                    R = res.data[k] if stack else res.data
+                    for a in range(3):
+                        delta = [R[a][t] - pts[k][a][t] for t in range(3)]
+                        for j in range(3):
+                            f = delta[0] * CRat(inv[0][j]) + delta[1] * CRat(inv[1][j]) + delta[2] * CRat(inv[2][j])
+                            conds.append(_t(f) == z3.ToReal(z3.ToInt(_t(f))))
+                    for a in range(2):
+                        step = [R[a + 1][t] - R[a][t] for t in range(3)]
+                        # the step is an image of the plain difference ...
+                        diff = [pts[k][a + 1][t] - pts[k][a][t] for t in range(3)]
+                        dd = [step[t] - diff[t] for t in range(3)]
+                        for j in range(3):
+                            f = dd[0] * CRat(inv[0][j]) + dd[1] * CRat(inv[1][j]) + dd[2] * CRat(inv[2][j])
+                            conds.append(_t(f) == z3.ToReal(z3.ToInt(_t(f))))
+                        # ... and the shortest one (orthorhombic cells: linear form of |s|^2 <= |s + M|^2)
+                        for i_, j_, k_ in itertools.product(range(-1, 2), repeat=3):
+                            if (i_, j_, k_) == (0, 0, 0):
+                                continue
+                            M = [i_ * b[0][t] + j_ * b[1][t] + k_ * b[2][t] for t in range(3)]
+                            lin = step[0] * CRat(2 * M[0]) + step[1] * CRat(2 * M[1]) + step[2] * CRat(2 * M[2]) + CRat(sum(x * x for x in M))
+                            conds.append(_t(lin) >= 0)
+                return z3.And(*conds)
+            wit = dict(bi=bi, X=[[[z3.ToReal(v) / 8 for v in a] for a in mod_] for mod_ in X] if stack else [[z3.ToReal(v) / 8 for v in a] for a in X[0]])
+            cases.append(Case(f"remove_pbc_from_coord, {'stack of 2 models, model ' + str(which) if stack else 'one model'}, box {BOXES[bi]}", base, run, wit, real_remove_pbc,
+                              timeout=900, solver_ms=120000))
+    return cases
